@@ -6,3 +6,5 @@ mod tests;
 
 pub use match_result::MatchResult;
 pub use transaction::Transaction;
+#[cfg(pricelevel_verif)]
+pub use list::TransactionList;
